@@ -6,6 +6,7 @@ import (
 	"runtime"
 	"runtime/debug"
 	"sync/atomic"
+	"time"
 
 	"github.com/mlange-42/ark/ecs"
 )
@@ -127,8 +128,13 @@ func runGCSoak(seed int64, rounds int) int {
 		_ = live
 		runtime.KeepAlive(w)
 	}
-	for i := 0; i < 6; i++ {
+	// finalizers run asynchronously on their own goroutine: give them time (bounded)
+	for i := 0; i < 300; i++ {
 		runtime.GC()
+		if finalized.Load()*10 >= created.Load()*8 {
+			break
+		}
+		time.Sleep(10 * time.Millisecond)
 	}
 	c, f := created.Load(), finalized.Load()
 	// finalizers run asynchronously; after several cycles nearly everything must be gone
